@@ -103,3 +103,208 @@ def gen_world(args, scratch):
         except Exception:
             pass
     return out
+
+
+# ------------------------------------------------------------------------------------------
+# C14 layer 1: the slices the stages actually use
+# ------------------------------------------------------------------------------------------
+def slices_world(args, scratch):
+    from oracles import rows
+    os.makedirs(scratch, exist_ok=True)
+    make_farm(scratch, args.get('canary'), args.get('repo'))
+    cases = []
+    for N in args['Ns']:
+        fn_set = 'tile_%d' % N
+        d = libdir(scratch, fn_set, 1)
+        os.makedirs(d)
+        with open(d + '/unique_equations_1.txt', 'w') as f:
+            f.write(''.join('u%d\n' % i for i in range(N)))
+        with open(d + '/all_equations_1.txt', 'w') as f:
+            f.write(''.join('f%d\n' % i for i in range(N)))
+        cases.append([fn_set, N])
+    os.makedirs(scratch + '/user/fitting')
+    res = run_world(world_spec(args, [['slices', {'cases': cases}]]), scratch)
+    out = slim(res, keep_choices=bool(args.get('keep_choices', True)))
+    probs = []
+    if res['violation'] is None and res['diverged'] is None:
+        reps = [rk['out'].get('slices') for rk in res['ranks']]
+        P = res['P']
+        for ci, (fn_set, N) in enumerate(cases):
+            for key, prefix in (('gf_unique', 'u'), ('gf_all', 'f')):
+                sl, cat = [], []
+                for r in range(P):
+                    s, e, lst = reps[r][ci][key]
+                    sl.append((min(s, N), min(e, N)))
+                    cat += lst
+                    if lst != ['%s%d' % (prefix, i) for i in range(min(s, N), min(e, N))]:
+                        probs.append(['slice-content', key, N, P, r, s, e])
+                for p in rows.tile(sl, N):
+                    probs.append(['tile', key, N, P] + list(map(str, p)))
+                if cat != ['%s%d' % (prefix, i) for i in range(N)]:
+                    probs.append(['concat', key, N, P])
+            sl = []
+            for r in range(P):
+                i = reps[r][ci]['split_idx']
+                sl.append((i[0], i[-1] + 1) if i else (0, 0))
+            for p in rows.tile(sl, N):
+                probs.append(['tile', 'split_idx', N, P] + list(map(str, p)))
+    out['probs'] = probs[:10]
+    out['sig'] = ('tile:%s:%s' % (probs[0][0], probs[0][1])) if probs else None
+    out['ncases'] = len(cases)
+    return out
+
+
+# ------------------------------------------------------------------------------------------
+# C14 layer 2 / C16: real fitting stages on a fixture library
+# ------------------------------------------------------------------------------------------
+STAGE_FILES = {
+    'test_all': ['negloglike_comp%d.dat'],
+    'fisher': ['codelen_comp%d_deriv.dat', 'derivs_comp%d.dat'],
+    'match': ['codelen_matches_comp%d.dat'],
+    'combine': ['combine_DL_comp%d.dat', 'combine_DL_fcn_comp%d.dat', 'final_%d.dat', 'results_pretty_%d.txt'],
+}
+
+
+def make_data(kind, seed, npts):
+    import numpy as np
+    rs = np.random.RandomState(seed % (2 ** 32))
+    x = np.sort(rs.uniform(0.5, 3.0, npts))
+    a, b = rs.uniform(0.5, 2.0), rs.uniform(-1.0, 1.0)
+    form = seed % 3
+    truth = a * x ** 2 + b if form == 0 else (a / x + b + 2 if form == 1 else a * x + abs(b) + 0.5)
+    if kind == 'Gauss':
+        sig = np.full(npts, 0.1 + 0.2 * rs.uniform())
+        y = truth + sig * rs.normal(size=npts)
+        return np.array([x, y, sig]).T
+    if kind == 'Poisson':
+        y = rs.poisson(10 * np.abs(truth) + 3).astype(float)
+        return np.array([x, y]).T
+    raise ValueError(kind)
+
+
+def install_lib(scratch, lib_src, runname):
+    dst = libdir(scratch, runname)
+    os.makedirs(os.path.dirname(dst), exist_ok=True)
+    if not os.path.isdir(dst):
+        shutil.copytree(lib_src, dst)
+
+
+def like_paths(scratch, like):
+    """(out_dir, temp_dir, data rows, kind) for a likelihood spec."""
+    import numpy as np
+    if like['cls'] in ('Gauss', 'Poisson'):
+        base = scratch + '/' + like['data_dir'] + '/fitting/output'
+        return base + '/output_' + like['run_name'], base + '/partial_' + like['run_name']
+    if like['cls'] == 'Mock':
+        rn = 'mock_%i_' % like['nz'] + str(like['yfracerr'])
+    else:
+        rn = 'cc_dimful'
+    base = scratch + '/pkg/esr/fitting/output'
+    return base + '/output_' + rn, base + '/partial_' + rn
+
+
+def like_data(scratch, like):
+    import numpy as np
+    from esrsim.common import REPO
+    if like['cls'] in ('Gauss', 'Poisson'):
+        return np.loadtxt(scratch + '/' + like['data_dir'] + '/' + like['data_file']).tolist()
+    repo = os.environ.get('ESRSIM_REPO', REPO)
+    if like['cls'] == 'Mock':
+        p = repo + '/esr/data/mock/CC_Hubble_%i_' % like['nz'] + str(like['yfracerr']) + '.dat'
+    else:
+        p = repo + '/esr/data/CC_Hubble.dat'
+    return np.genfromtxt(p).tolist()
+
+
+def fit_program(like, comp, stages, opts):
+    lk = dict(like)
+    lk['name'] = 'L'
+    prog = [['like', lk]]
+    for st in stages:
+        kw = dict(stage=st, comp=comp, like='L')
+        if st == 'test_all':
+            kw.update(opts.get('test_all') or {})
+        prog.append(['fit', kw])
+    return prog
+
+
+def fit_world(args, scratch):
+    """Fresh output directory; construct the likelihood on every rank; run the four stages; ROW
+    oracles; then (cmp=True) a 1-rank world re-runs the deterministic stages on the same inputs."""
+    import numpy as np
+    from oracles import rows
+    os.makedirs(scratch, exist_ok=True)
+    make_farm(scratch, args.get('canary'), args.get('repo'))
+    runname, comp = args['runname'], int(args['compl'])
+    install_lib(scratch, args['lib_src'], runname)
+    like = dict(args['like'])
+    like.setdefault('fn_set', runname)
+    if like['cls'] in ('Gauss', 'Poisson'):
+        os.makedirs(scratch + '/' + like['data_dir'], exist_ok=True)
+        fmt = '%.6f'
+        np.savetxt(scratch + '/' + like['data_dir'] + '/' + like['data_file'],
+                   make_data(like['cls'], int(args['data_seed']), int(args['npts'])), fmt=fmt)
+    stages = args.get('stages') or ['test_all', 'fisher', 'match', 'combine']
+    prog = list(args.get('pre') or []) + fit_program(like, comp, stages, args.get('opts') or {})
+    res = run_world(world_spec(args, prog), scratch)
+    out = slim(res, keep_choices=bool(args.get('keep_choices', True)))
+    out_dir, temp_dir = like_paths(scratch, like)
+    probs, stats = [], {}
+    if res['violation'] is None and res['diverged'] is None:
+        lib = libdir(scratch, runname, comp)
+        uniq = rows.read_lines('%s/unique_equations_%d.txt' % (lib, comp))
+        allf = rows.read_lines('%s/all_equations_%d.txt' % (lib, comp))
+        matches = [int(float(t)) for t in rows.read_lines('%s/matches_%d.txt' % (lib, comp))]
+        data = like_data(scratch, like)
+        kind = like['cls']
+        try:
+            if 'test_all' in stages:
+                probs += rows.check_negloglike('%s/negloglike_comp%d.dat' % (out_dir, comp), uniq, kind, data, stats)
+            if 'fisher' in stages:
+                probs += rows.check_codelen('%s/codelen_comp%d_deriv.dat' % (out_dir, comp), uniq, kind, data, stats)
+                nd = len(rows.read_table('%s/derivs_comp%d.dat' % (out_dir, comp)))
+                if nd != len(uniq):
+                    probs.append(('rows', 'derivs', nd, len(uniq)))
+            if 'match' in stages:
+                probs += rows.check_matches('%s/codelen_matches_comp%d.dat' % (out_dir, comp), allf, matches, stats)
+            if 'combine' in stages:
+                probs += rows.check_final('%s/final_%d.dat' % (out_dir, comp), allf, kind, data, stats)
+        except FileNotFoundError as e:
+            probs.append(('missing-output', os.path.basename(str(e.filename))))
+        left = sorted(os.listdir(temp_dir)) if os.path.isdir(temp_dir) else []
+        if left:
+            probs.append(('temp-files-left', left[:4]))
+        out['out_hashes'] = file_hashes(out_dir)
+        # ---- deterministic stages re-run by one rank on the same inputs ----
+        if args.get('cmp', True) and not probs and res['P'] > 1 and 'fisher' in stages:
+            like2 = dict(like)
+            if like['cls'] in ('Gauss', 'Poisson'):
+                like2['data_dir'] = like['data_dir'] + '_cmp'
+                os.makedirs(scratch + '/' + like2['data_dir'])
+                shutil.copy(scratch + '/' + like['data_dir'] + '/' + like['data_file'], scratch + '/' + like2['data_dir'] + '/' + like['data_file'])
+                out2, _ = like_paths(scratch, like2)
+                os.makedirs(out2)
+                shutil.copy('%s/negloglike_comp%d.dat' % (out_dir, comp), out2)
+                st2 = [s for s in stages if s != 'test_all']
+                a2 = dict(args, P=1, policy={'kind': 'lowest'}, plan=None, script=None)
+                res2 = run_world(world_spec(a2, fit_program(like2, comp, st2, {})), scratch)
+                if res2['violation'] is not None:
+                    probs.append(('cmp-world-failed', res2['violation']['sig']))
+                else:
+                    h2 = file_hashes(out2)
+                    for st in st2:
+                        bad = [f % comp for f in STAGE_FILES[st] if f % comp != 'results_pretty_%d.txt' % comp
+                               and h2.get(f % comp) != out['out_hashes'].get(f % comp)]
+                        if bad:
+                            probs.append(('differs-from-1-rank-run-on-same-inputs', st, bad))
+                            break
+                    stats['cmp_files'] = len(h2)
+    out['probs'] = [list(map(str, p)) for p in probs][:10]
+    out['sig'] = ('fit-output:%s:%s' % (probs[0][0], probs[0][1])) if probs else None
+    out['stats'] = stats
+    if args.get('tail'):
+        try:
+            out['stdout_tail'] = open(scratch + '/rank0.out').read()[-int(args['tail']):]
+        except Exception:
+            pass
+    return out
